@@ -4,7 +4,7 @@ import Driver.Util
 /-
 xm_c14: runs generated stylesheets (as instruction trees) on the Lean model of the result-event machine.
 Request (one case per line, blank-separated tokens, `-` = empty string, `#` = default prefix):
-  case  := NDECL (p u)*  NEXCL p*  SRC  NBODY INSTR*
+  case  := NDECL (p u)*  NEXCL p*  NALIAS (stylesheet-prefix result-prefix)*  SRC  NBODY INSTR*
   SRC   := name uri NATT (qname val)* NKIDS SRC*
   INSTR := L name NDECL (p u)* NATT (qname val)* NEXCL p* NBODY INSTR*
          | E name NSFLAG ns NBODY INSTR* | A name NSFLAG ns value | T | C k | Y k NBODY INSTR*
@@ -47,6 +47,10 @@ def pNS : P NS
 
 def pAtt : P Att
   | n :: v :: ts => some (⟨qn n, str v⟩, ts)
+  | _ => none
+
+def pAlias : P (String × String)
+  | a :: b :: ts => some ((pfxOf a, pfxOf b), ts)
   | _ => none
 
 def pPfx : P String
@@ -92,12 +96,13 @@ def runLine (ts : List String) : String :=
   match (do
     let (decls, ts) ← pCounted pNS ts
     let (excl, ts) ← pCounted pPfx ts
+    let (al, ts) ← pCounted pAlias ts
     let (src, ts) ← pSrc ts
     let (body, ts) ← pCounted pInstr ts
-    if ts.isEmpty then pure (decls, excl, src, body) else none) with
+    if ts.isEmpty then pure (decls, excl, al, src, body) else none) with
   | none => "bad"
-  | some (decls, excl, src, body) =>
-    let r := runCase XalanModel.Generated.C14_Variant.variant decls excl src body
+  | some (decls, excl, al, src, body) =>
+    let r := runCase XalanModel.Generated.C14_Variant.variant decls excl al src body
     if r.bad then "BAD"
     else if r.st.err then "ERR | " ++ " ".intercalate r.tags.reverse
     else " ".intercalate (r.st.out.reverse.map showEv) ++ " | " ++ " ".intercalate r.tags.reverse
